@@ -36,6 +36,9 @@ func checkC10(ctx *Ctx, r *Report) {
 	c10OverrideReplacesFieldDefault(ctx, r)
 	c10GoNestedOverrideRecurses(ctx, r)
 	inProgressRestored(ctx, r, []string{"internal/jennies/golang/rawtypes.go", "internal/jennies/java/types.go"}, 2)
+	c12ConstructorCollections(ctx, r)
+	c10PointerHintFromFieldType(ctx, r)
+	c10ThirdHunt(ctx, r)
 }
 
 func c10DefaultCarried(ctx *Ctx, r *Report) map[*types.Func]bool {
@@ -747,20 +750,36 @@ func c10WalkersReadDefault(ctx *Ctx, r *Report) {
 				cons := ctx.FuncName(fobj) + " carries default"
 				// JSON Schema from 2019-09 on — the dialect the parsing library assumes when `$schema` is absent — applies the
 				// keywords written next to `$ref`, oneOf and anyOf: the exemptions for these three only hold for OpenAPI 3.0
-				jsonSchemaOnly := rel == "internal/jsonschema" && (fd.Name.Name == "walkRef" || fd.Name.Name == "walkOneOf" || fd.Name.Name == "walkAnyOf")
-				if why, ok := c10WalkerExemptions[fd.Name.Name]; ok && !jsonSchemaOnly {
+				// (the exemption of oneOf / anyOf was wrong for OpenAPI too: a default next to them is the property's default —
+				// lifted after the third hunt of C10; only `$ref` keeps its OpenAPI 3.0 exemption)
+				lifted := fd.Name.Name == "walkOneOf" || fd.Name.Name == "walkAnyOf" || (rel == "internal/jsonschema" && fd.Name.Name == "walkRef")
+				if why, ok := c10WalkerExemptions[fd.Name.Name]; ok && !lifted {
 					r.OK("frontier/default-read", cons, fd.Pos(), "reviewed: "+why)
 					continue
 				}
 				reads := false
+				// the walker itself, or a helper of the package it hands the node to (not another walker)
+				bodies := []ast.Node{fd.Body}
 				ast.Inspect(fd.Body, func(m ast.Node) bool {
-					if sel, ok := m.(*ast.SelectorExpr); ok && sel.Sel.Name == "Default" {
-						if f := fieldOf(info, sel); f != nil && f.Pkg() != nil && !strings.HasPrefix(f.Pkg().Path(), modulePath) {
-							reads = true
+					if c, ok := m.(*ast.CallExpr); ok {
+						if fn := callee(info, c); fn != nil && fn.Pkg() == p.Types && !strings.HasPrefix(fn.Name(), "walk") {
+							if hfd, _ := ctx.DeclOf(fn); hfd != nil && hfd.Body != nil {
+								bodies = append(bodies, hfd.Body)
+							}
 						}
 					}
 					return true
 				})
+				for _, b := range bodies {
+					ast.Inspect(b, func(m ast.Node) bool {
+						if sel, ok := m.(*ast.SelectorExpr); ok && sel.Sel.Name == "Default" {
+							if f := fieldOf(info, sel); f != nil && f.Pkg() != nil && !strings.HasPrefix(f.Pkg().Path(), modulePath) {
+								reads = true
+							}
+						}
+						return true
+					})
+				}
 				// maps: accepted gap (the jennies cannot render a map default)
 				r.Check(reads, "frontier/default-read", cons, fd.Pos(), "reads the node's default",
 					fmt.Sprintf("%s builds a type from a schema node without reading its `default`: the default the schema declares is dropped (the sibling walkers of both JSON-family front-ends carry it)", ctx.FuncName(fobj)))
@@ -1464,6 +1483,10 @@ func c10OpenAPITypedDefaults(ctx *Ctx, r *Report) {
 				default:
 					return true
 				}
+				// a test for presence (`schema.Default != nil`) copies nothing into the IR
+				if be, ok := parents[e].(*ast.BinaryExpr); ok && (be.Op == token.NEQ || be.Op == token.EQL) && (exprString(be.X) == "nil" || exprString(be.Y) == "nil") {
+					return true
+				}
 				n++
 				through := false
 				if c, ok := parents[e].(*ast.CallExpr); ok && callee(info, c) == san {
@@ -1643,4 +1666,100 @@ func c10OverrideReplacesFieldDefault(ctx *Ctx, r *Report) {
 	}
 	r.Count("override loops recursing into reference-typed fields", n)
 	r.Floor("override loops recursing into reference-typed fields", 2)
+}
+
+// c10PointerHintFromFieldType: maybeValueAsPointer(value, nullable, T) writes `(func(input T) *T {…})(value)` when
+// `nullable` holds. The pointer-ness comes from the declared type of the field (`field.Type.Nullable`), so T has to be
+// that same type: with the *resolved* type the helper yields a *int64 for a field declared *Age, and `*unknown` for a
+// named enum. Every call whose second argument is `X.Nullable` passes X itself as the third.
+func c10PointerHintFromFieldType(ctx *Ctx, r *Report) {
+	fn := ctx.LookupMethod("internal/jennies/golang", "RawTypes", "maybeValueAsPointer")
+	p := ctx.Pkg("internal/jennies/golang")
+	if fn == nil || p == nil {
+		r.Undecided("anchor lost: golang.RawTypes.maybeValueAsPointer")
+		return
+	}
+	info := p.TypesInfo
+	n := 0
+	for _, file := range p.Syntax {
+		var fname string
+		ast.Inspect(file, func(m ast.Node) bool {
+			if d, ok := m.(*ast.FuncDecl); ok {
+				fname = d.Name.Name
+			}
+			c, ok := m.(*ast.CallExpr)
+			if !ok || callee(info, c) != fn || len(c.Args) != 3 {
+				return true
+			}
+			sel, ok := ast.Unparen(c.Args[1]).(*ast.SelectorExpr)
+			if !ok || sel.Sel.Name != "Nullable" {
+				return true
+			}
+			n++
+			r.Check(sameAccessPath(info, sel.X, c.Args[2]), "siblings/pointer-hint-from-field-type", fmt.Sprintf("golang.%s pointer helper #%d", fname, n), c.Pos(), "typed after the type whose nullability decides the pointer",
+				fmt.Sprintf("the pointer helper is written when %s holds but typed after %s: for an optional field typed by a named scalar the generated constructor holds a *int64 where the field is a *Age (and *unknown for a named enum) — the package does not compile", exprString(c.Args[1]), exprString(c.Args[2])))
+			return true
+		})
+	}
+	r.Count("pointer helpers written for defaults by the Go jenny", n)
+	r.Floor("pointer helpers written for defaults by the Go jenny", 3)
+}
+
+// c10ThirdHunt — (a) Python: a reference can carry a default of its own (`name: {$ref: Name, default: bob}`); for a
+// referred scalar, list or map the reference case of defaultValueForTypeRec has to return it instead of instantiating
+// the alias (`Name()` is the zero value of the aliased type). (b) Go: the items of a default list are literals of the
+// list's item type: formatDefaultValue formats items that are lists by calling itself with that type — formatScalar
+// writes `[]string{…}` for every list.
+func c10ThirdHunt(ctx *Ctx, r *Report) {
+	if fn := ctx.LookupFunc("internal/jennies/python", "defaultValueForTypeRec"); fn == nil {
+		r.Undecided("anchor lost: python.defaultValueForTypeRec")
+	} else if fd, p := ctx.DeclOf(fn); fd != nil {
+		info := p.TypesInfo
+		returnsDefault := false
+		ast.Inspect(fd.Body, func(m ast.Node) bool {
+			cc, ok := m.(*ast.CaseClause)
+			if !ok {
+				return true
+			}
+			isRef := false
+			for _, e := range cc.List {
+				if strings.HasSuffix(exprString(e), "KindRef") {
+					isRef = true
+				}
+			}
+			if !isRef {
+				return true
+			}
+			ast.Inspect(cc, func(q ast.Node) bool {
+				rs, ok := q.(*ast.ReturnStmt)
+				if !ok || len(rs.Results) != 1 {
+					return true
+				}
+				if sel, ok := ast.Unparen(rs.Results[0]).(*ast.SelectorExpr); ok && sel.Sel.Name == "Default" {
+					if f := fieldOf(info, sel); f != nil && f.Pkg() != nil && f.Pkg().Path() == astPkgPath {
+						returnsDefault = true
+					}
+				}
+				return true
+			})
+			return false
+		})
+		r.Count("hunted clauses of the defaults rules (3rd hunt)", 1)
+		r.Check(returnsDefault, "frontier/python-default-on-reference", "python.defaultValueForTypeRec returns the default a reference carries", fd.Pos(), "the reference case can answer with typeDef.Default",
+			"in the reference case the default carried by the reference is only used for enums, aliases and structs: `name: {$ref: Name, default: bob}` with Name a string is initialised with Name() — \"\" — where Go writes bob")
+	}
+	if fn := ctx.LookupMethod("internal/jennies/golang", "RawTypes", "formatDefaultValue"); fn == nil {
+		r.Undecided("anchor lost: golang.RawTypes.formatDefaultValue")
+	} else if fd, p := ctx.DeclOf(fn); fd != nil {
+		recursive := false
+		ast.Inspect(fd.Body, func(m ast.Node) bool {
+			if c, ok := m.(*ast.CallExpr); ok && callee(p.TypesInfo, c) == fn {
+				recursive = true
+			}
+			return true
+		})
+		r.Count("hunted clauses of the defaults rules (3rd hunt)", 1)
+		r.Check(recursive, "kinds/go-nested-list-default", "golang.formatDefaultValue formats nested lists with their own item type", fd.Pos(), "items that are lists go back through formatDefaultValue",
+			"the items of a default list are all formatted by formatScalar, whose list branch writes []string{…} whatever the type: `matrix: [...[...int64]] | *[[1, 2], [3]]` gives [][]int64{[]string{1, 2}, []string{3}}, which does not compile")
+	}
 }
